@@ -373,6 +373,33 @@ def verify_replay_fresh(check_id, path, expect_class, timeout=300):
 
 
 ###############################################################################
+# Warnings filter (an environment choice of a run, applied around library calls only)
+###############################################################################
+
+
+class warnings_filter:
+    """`with core.warnings_filter('error'):` = the library runs as under python -W error /
+    PYTHONWARNINGS=error / pytest's filterwarnings = error. None or 'default': nothing changes."""
+
+    def __init__(self, mode):
+        self.mode = mode
+        self._cm = None
+
+    def __enter__(self):
+        if self.mode == 'error':
+            import warnings
+            self._cm = warnings.catch_warnings()
+            self._cm.__enter__()
+            warnings.simplefilter('error')
+        return self
+
+    def __exit__(self, *exc):
+        if self._cm is not None:
+            self._cm.__exit__(*exc)
+        return False
+
+
+###############################################################################
 # Interpreter-configuration slices
 ###############################################################################
 
